@@ -1,6 +1,6 @@
 import WM.Lemmas.SearchLists
 /-!
-Spec-side lemmas for C01/C09: hypotheses of the theorems (`PosQ`, `PosLeaf`, `NoEmptyTerm`,
+Spec-side lemmas for C01/C09: hypotheses of the theorems (`PosQ`, `PosLeaf`,
 `ValidOracle`), the pointwise specification `specLookup`, how the pointwise folds of the list
 operators evaluate on specifications, positivity of specified scores, phrases.
 -/
@@ -32,9 +32,6 @@ end
 /-- leaf scores of terms that occur in a live document are positive -/
 def PosLeaf (ls : LeafScore) (s : Segment) : Prop :=
   ∀ i ∈ s.live, ∀ f t, (s.doc i).hasTerm f t = true → 0 < ls (s.doc i) f t
-
-/-- no document of the segment contains the empty term (`MultiTerm.matcher` skips it) -/
-def NoEmptyTerm (s : Segment) : Prop := ∀ d ∈ s.docs, ∀ f, ([] : Term) ∉ d.terms f
 
 /-- whatever tree the implementation builds over `n ≥ 2` clauses, its leaves are the clauses -/
 def ValidOracle (so : ShapeOracle) : Prop := ∀ qs, 2 ≤ qs.length → (so qs).Valid qs.length
